@@ -27,10 +27,12 @@ def e6(x):
     return '%.6e' % float(x)
 
 
-def content_of(f, indep):
+def content_of(f, indep, descale=None):
+    """descale: per variable a power of two the values are divided by (exact)
+    before they are rendered."""
     names = [indep] + [k for k in f.variables.keys() if k != indep]
     out = {'names': names, 'units': [], 'missing': [], 'mask': [], 'vals': []}
-    for k in names:
+    for q, k in enumerate(names):
         v = f.variables[k]
         out['units'].append(str(getattr(v, 'units', '')))
         mv = getattr(v, 'missing_value', None)
@@ -38,7 +40,8 @@ def content_of(f, indep):
         arr = np.ma.asarray(v[...]).ravel()
         m = np.ma.getmaskarray(arr)
         out['mask'].append([int(x) for x in m])
-        out['vals'].append([e6(x) if not mm else 'masked'
+        div = descale[q] if descale and q < len(descale) else 1.0
+        out['vals'].append([e6(x / div) if not mm else 'masked'
                             for x, mm in zip(np.ma.getdata(arr), m)])
     return out
 
@@ -52,9 +55,11 @@ def run_case(cs):
     tr = {'tid': cs['tid'], 'st': cs['st'], 'wres': 'ok', 'wexc': '',
           'rres': 'ok', 'rexc': '', 'rres2': 'ok', 'rexc2': '',
           'lines': [], 'declared': {'nlhead': -1, 'nv': -1}, 'colnames': [],
-          'autocls': '', 'orig': {}, 'read1': {}, 'readauto': {}, 'read2': {}}
+          'autocls': '', 'orig': {}, 'read1': {}, 'readauto': {}, 'read2': {},
+          'scaled': {'h': False, 'res': 'ok', 'exc': ''}}
     empty = {'names': [], 'units': [], 'missing': [], 'mask': [], 'vals': []}
     tr['read1'] = tr['readauto'] = tr['read2'] = empty
+    tr['sread1'] = tr['sread2'] = empty
     try:
         st = cs['st']
         f = pnc.PseudoNetCDFFile()
@@ -122,6 +127,27 @@ def run_case(cs):
         except Exception as ex:
             tr['rres2'] = 'raised'
             tr['rexc2'] = repr(ex)[:100]
+        # the same text with scale factors other than 1 (powers of two, so
+        # that dividing the values read by the factor is exact): the values
+        # are the raw numbers times the factor, once, in every cycle
+        if cs.get('scales'):
+            tr['scaled']['h'] = True
+            try:
+                sc = [1.0] + [float(x) for x in cs['scales']]
+                lines = open(p1).read().split('\n')
+                lines[10] = ', '.join(repr(x) for x in sc[1:])
+                p3 = os.path.join(tmp, 'w3.ict')
+                with open(p3, 'w') as fo:
+                    fo.write('\n'.join(lines))
+                g3 = ffi1001(p3)
+                tr['sread1'] = content_of(g3, 'Start_UTC', sc)
+                p4 = os.path.join(tmp, 'w4.ict')
+                ncf2ffi1001(g3, p4).close()
+                tr['sread2'] = content_of(ffi1001(p4), 'Start_UTC', sc)
+            except Exception as ex:
+                tr['scaled']['res'] = 'raised'
+                tr['scaled']['exc'] = '%s: %s' % (type(ex).__name__,
+                                                  str(ex)[:100])
         return tr
     finally:
         shutil.rmtree(tmp, ignore_errors=True)
@@ -129,8 +155,12 @@ def run_case(cs):
 
 def gen_case(rnd, st):
     nrec, nv = st['nrec'], st['nv']
-    mags = [1.5e-30, 2.25e-7, 0.0, 1.0, -3.75, 12345.678, 9.999999e5,
-            3.1e20, -4.0e25, 7e-3]
+    # half of the cases also go through the scaled-text stage; their values
+    # keep at most seven significant digits after multiplication by 1/4..8
+    scaled = rnd.random() < 0.5
+    mags = [1.5e-30, 2.25e-7, 0.0, 1.0, -3.75, 3.1e20, -4.0e25, 7e-3]
+    if not scaled:
+        mags += [12345.678, 9.999999e5]
     vars_ = []
     for i in range(nv):
         # codes in use: short ones, the wide ICARTT code with 7 significant
@@ -155,7 +185,11 @@ def gen_case(rnd, st):
     t0 = rnd.choice([0, 36000, 86000])
     return {'st': st, 't': [t0 + 10 * k for k in range(nrec)],
             'tunit': rnd.choice(['seconds', 's']), 'vars': vars_,
-            'atts': atts}
+            'atts': atts,
+            # scale factors of the dependent variables for the scaled-text
+            # stage (half of the cases)
+            'scales': [rnd.choice([1, 0.5, 2, 0.25, 8]) for _ in range(nv)]
+            if scaled else []}
 
 
 def run(tier):
